@@ -55,10 +55,6 @@ static void do_model()
     printf("end\n");
 }
 
-// factory <id> n fmax R_bend frev gap use_csr s xi rcoll file|-
-// prints the factory's result and, separately, every contribution constructed directly
-// with the arguments the factory documents (parts that cannot be constructed for the given
-// parameters are omitted: parallel plates needs gap > 0).
 // Reading past the end of a vector is undefined; to make such a read visible in the values
 // (rather than depend on what the allocator last had there) the free lists are filled with
 // a large non-zero float pattern before the factory runs.
@@ -70,6 +66,10 @@ static void dirty_heap(size_t n)
     for (auto* p : junk) delete p;
 }
 
+// factory <id> n fmax R_bend frev gap use_csr s xi rcoll file|-
+// prints the factory's result and, separately, every contribution constructed directly
+// with the arguments the factory documents (parts that cannot be constructed for the given
+// parameters are omitted: parallel plates needs gap > 0).
 static void do_factory()
 {
     std::string id = next();
@@ -85,6 +85,7 @@ static void do_factory()
     std::streambuf* old = std::cout.rdbuf(nullptr);   // Display::printText is chatty
     auto z = makeImpedance(n, nullptr, fmax, R, frev, gap, use_csr, s, xi, rc, file);
     std::cout.rdbuf(old);
+    std::cout.clear();
     if (z) pimp("out", *z); else printf("null\n");
     const double f0 = physcons::c / (2 * M_PI * R);
     const double radius = std::abs(gap / 2);
@@ -114,7 +115,40 @@ static void do_sum()
     printf("end\n");
 }
 
+// wake <id> nx nmax fs|rw sigma_cells x0 f0 fmax [L s xi b]
+// impulse response (explored, C16 causality): a narrow Gaussian line density centred at cell x0
+// of an nx grid, field object with the model impedance on nmax samples, single bunch at padded
+// offset 0; prints the wake potential on the nx cells.
+static void do_wake()
+{
+    std::string id = next();
+    unsigned nx = nextl();
+    size_t nmax = nextl();
+    std::string kind = next();
+    double sigma = nextd(), x0 = nextd();
+    frequency_t f0 = nextd(), fmax = nextd();
+    std::shared_ptr<Impedance> z;
+    if (kind == "fs") z = std::make_shared<FreeSpaceCSR>(nmax, f0, fmax);
+    else {
+        double L = nextd(), s = nextd(), xi = nextd(), b = nextd();
+        z = std::make_shared<ResistiveWall>(nmax, f0, fmax, L, s, xi, b);
+    }
+    auto ps = mkps(nx, 1);
+    std::vector<projection_t> prof(nx);
+    double tot = 0;
+    for (unsigned x = 0; x < nx; x++) { prof[x] = std::exp(-0.5 * (x - x0) * (x - x0) / (sigma * sigma)); tot += prof[x]; }
+    for (unsigned x = 0; x < nx; x++) ps->_projection[0][0][x] = prof[x] / tot;
+    std::streambuf* old = std::cout.rdbuf(nullptr);
+    ElectricField ef(ps, z, {0}, 0, nullptr, 1e6, 0.1, 1e-3, 1e9, 1e-3, 1e-12);
+    std::cout.rdbuf(old);
+    std::cout.clear();
+    meshaxis_t* w = ef.wakePotential();
+    printf("case %s\nwake", id.c_str());
+    for (unsigned x = 0; x < nx; x++) pf(w[x]);
+    printf("\nend\n");
+}
+
 int main(int argc, char** argv)
 {
-    return run_main(argc, argv, {{"model", do_model}, {"factory", do_factory}, {"sum", do_sum}});
+    return run_main(argc, argv, {{"model", do_model}, {"factory", do_factory}, {"sum", do_sum}, {"wake", do_wake}});
 }
